@@ -6,8 +6,15 @@ normaliser can return and every branch files exactly one object of the matching 
 keys written = keys read, BaseInteractions arguments in field order, normaliser steps update the string they test,
 DSSR: exact membership guard, pair filter, consecutive stack members, name matching.
 
-Fact-level rules first (checks/c19e.py: the import evaluated on one listing per class of line, the matchers on one id per
-class, in the abstract world of sa/world.py); the pinned forms in this file are only the fallback when that is not possible.
+Fact-level rules first (checks/c19e.py: the import evaluated on one listing per class of line and of label, the matchers on one
+id per class, in the abstract world of sa/world.py and the process model of sa/procstate.py; here: normaliser-eval on every label
+class, dssr-eval on documents whose expected import is computed from the statement's words, import-history for both importers);
+the pinned forms in this file are only the fallback when that is not possible.
+
+Round 4: label-total (every class of label files exactly one interaction - an exception of a label path must not end in the handler
+for malformed lines), import-history (two imports in one process give what each gives alone; a result already returned is not
+rewritten), may-raise sites are named with construct / reason / enclosing handlers and know Enum(value) -> ValueError and lookups
+dominated by a membership test; stackings are recorded exactly for members adjacent in a stack's own list.
 """
 from __future__ import annotations
 
@@ -27,32 +34,94 @@ STACK_LABELS = {"s33": "downward", "s55": "upward", "s35": "outward", "s53": "in
 DISPATCH = {"base-pair": ("BasePair", "base_pairs"), "stacking": ("Stacking", "stackings"), "base-ribose": ("BaseRibose", "base_ribose_interactions"), "base-phosphate": ("BasePhosphate", "base_phosphate_interactions"), "other": ("OtherInteraction", "other_interactions")}
 
 
-def may_raise(repo, fi: FuncInfo, depth: int = 0) -> Set[str]:
-    """Exception types that can escape fi from int()/float() of strings, constant subscripts of split() results
-    without an exact length guard, Enum/dict subscripts and explicit raises - minus enclosing handlers."""
-    fm = FlowMap(fi.node)
-    out: Set[str] = set()
+def enum_names(repo, module: str) -> Set[str]:
+    """Names visible in `module` that are Enum classes of the package."""
+    from sa.world import _is_enum
 
-    def handled(node: ast.AST, exc: str) -> bool:
+    out: Set[str] = set()
+    m = repo.module(module)
+    for name in list(m.imports) + list(m.classes):
+        try:
+            hm, hn = repo.const_home(module, name)
+            c = repo.module(hm).classes.get(hn)
+        except Exception:
+            continue
+        if c is not None and _is_enum(c):
+            out.add(name)
+    return out
+
+
+WHY_RAISES = {
+    "int-float": "int()/float() of a string that is not a number",
+    "split-index": "a fixed position of a split() result that is not guarded by the number of parts",
+    "enum-name": "an Enum subscripted by a name that is not a member raises KeyError",
+    "enum-value": "an Enum called with a value that no member has raises ValueError (not KeyError)",
+    "raise": "explicit raise",
+}
+
+
+def raise_sites(repo, fi: FuncInfo, depth: int = 0) -> Dict[str, List[str]]:
+    """Exception type -> the constructs of fi (and of the same-module functions it calls) that can raise it and are not inside a
+    handler that accepts it: int()/float() of strings, constant subscripts of split() results without an exact length guard,
+    Enum subscripts (KeyError) and Enum calls by value (ValueError), explicit raises."""
+    fm = FlowMap(fi.node)
+    out: Dict[str, List[str]] = {}
+
+    def handlers_of(node: ast.AST) -> List[str]:
         st = fm.stmt_of(node)
+        names: List[str] = []
         if st is None:
-            return False
+            return names
         for tr in fm.of(st).handlers:
             for h in tr.handlers:
                 if h.type is None:
-                    return True
-                types = h.type.elts if isinstance(h.type, ast.Tuple) else [h.type]
-                names = {ast.unparse(t).split(".")[-1] for t in types}
-                if exc in names or "Exception" in names or (exc in ("KeyError", "IndexError") and "LookupError" in names):
+                    names.append("*")
+                else:
+                    types = h.type.elts if isinstance(h.type, ast.Tuple) else [h.type]
+                    names.extend(ast.unparse(t).split(".")[-1] for t in types)
+        return names
+
+    def handled(node: ast.AST, exc: str) -> bool:
+        names = set(handlers_of(node))
+        return "*" in names or exc in names or "Exception" in names or "BaseException" in names or (exc in ("KeyError", "IndexError") and "LookupError" in names)
+
+    def add(node: ast.AST, exc: str, why: str, via: str = "") -> None:
+        hs = handlers_of(node)
+        where = f"line {getattr(node, 'lineno', '?')} `{ast.unparse(node)[:70]}`" + (f" -> {via}" if via else "")
+        out.setdefault(exc, []).append(f"{where} ({why}; " + (f"the enclosing handlers accept only {', '.join(sorted(set(hs)))}" if hs else f"no handler in {fi.qualname} encloses it") + ")")
+
+    split_vars = {s.targets[0].id for s in ast.walk(fi.node) if isinstance(s, ast.Assign) and isinstance(s.targets[0], ast.Name) and isinstance(s.value, ast.Call) and astq.callee_name(s.value) == "split"}
+    enums = enum_names(repo, fi.module.name)
+
+    def member_guarded(n: ast.AST, enum: str, arg: ast.AST, by_value: bool) -> bool:
+        """The lookup is dominated by a test that `arg` is a member name (`arg in E.__members__` holds / `arg not in E.__members__`
+        left the function), the tested name is not rebound between the test and the lookup, and - for a lookup by value - every
+        member's value is its name (read from the class)."""
+        if not isinstance(arg, ast.Name):
+            return False
+        if by_value:
+            try:
+                from sa.world import enum_stub
+
+                hm, hn = repo.const_home(fi.module.name, enum)
+                if any(m.value != m.name for m in enum_stub(repo, hm, hn)):
+                    return False
+            except Exception:
+                return False
+        st = fm.stmt_of(n)
+        for g in facts(fm.expr_guards(st, n) or ()):
+            t = g.test
+            if isinstance(t, ast.Compare) and len(t.ops) == 1 and isinstance(t.left, ast.Name) and t.left.id == arg.id and ast.unparse(t.comparators[0]) == f"{enum}.__members__":
+                holds = (isinstance(t.ops[0], ast.In) and g.polarity) or (isinstance(t.ops[0], ast.NotIn) and not g.polarity)
+                rebound = any(isinstance(x, ast.Name) and x.id == arg.id and isinstance(x.ctx, ast.Store) and getattr(t, "lineno", 0) < getattr(x, "lineno", 0) <= getattr(n, "lineno", 0) for x in ast.walk(fi.node))
+                if holds and not rebound:
                     return True
         return False
 
-    split_vars = {s.targets[0].id for s in ast.walk(fi.node) if isinstance(s, ast.Assign) and isinstance(s.targets[0], ast.Name) and isinstance(s.value, ast.Call) and astq.callee_name(s.value) == "split"}
-    enums = {"LeontisWesthof", "BR", "BPh", "StackingTopology", "Saenger", "ExternalTool"}
     for n in astq.walk_no_nested(fi.node):
-        exc = None
+        exc = why = None
         if isinstance(n, ast.Call) and isinstance(n.func, ast.Name) and n.func.id in ("int", "float") and n.args and not isinstance(n.args[0], ast.Constant):
-            exc = "ValueError"
+            exc, why = "ValueError", WHY_RAISES["int-float"]
         elif isinstance(n, ast.Subscript) and isinstance(n.value, ast.Name) and n.value.id in split_vars and isinstance(n.slice, ast.Constant) and isinstance(n.slice.value, int) and isinstance(n.ctx, ast.Load):
             k = n.slice.value
             st = fm.stmt_of(n)
@@ -61,16 +130,17 @@ def may_raise(repo, fi: FuncInfo, depth: int = 0) -> Set[str]:
             guarded = any(g.polarity and astq.match(g.test, f"len({n.value.id}) >= C_") is not None and Folder(repo, fi.module.name).try_fold(astq.match(g.test, f"len({n.value.id}) >= C_")["C_"]) >= need for g in gs) or any(
                 (not g.polarity) and astq.match(g.test, f"len({n.value.id}) < C_") is not None and Folder(repo, fi.module.name).try_fold(astq.match(g.test, f"len({n.value.id}) < C_")["C_"]) >= need for g in gs
             )
-            if not guarded and k != 0 and k != -1:
-                exc = "IndexError"
-            elif not guarded and k in (0, -1):
-                exc = None  # str.split always yields at least one element
+            if not guarded and k != 0 and k != -1:  # str.split always yields at least one element
+                exc, why = "IndexError", WHY_RAISES["split-index"]
         elif isinstance(n, ast.Subscript) and isinstance(n.value, ast.Name) and n.value.id in enums and isinstance(n.ctx, ast.Load):
-            exc = "KeyError"
+            if not member_guarded(n, n.value.id, n.slice, False):
+                exc, why = "KeyError", WHY_RAISES["enum-name"]
         elif isinstance(n, ast.Call) and isinstance(n.func, ast.Name) and n.func.id in enums:
-            exc = "ValueError"
+            if not (len(n.args) == 1 and not n.keywords and member_guarded(n, n.func.id, n.args[0], True)):
+                exc, why = "ValueError", WHY_RAISES["enum-value"]
         elif isinstance(n, ast.Raise):
             exc = ast.unparse(n.exc.func).split(".")[-1] if isinstance(n.exc, ast.Call) else (ast.unparse(n.exc) if n.exc is not None else "reraise")
+            why = WHY_RAISES["raise"]
         elif isinstance(n, ast.Call) and isinstance(n.func, ast.Name) and depth < 3:
             try:
                 hm, hn = repo.const_home(fi.module.name, n.func.id)
@@ -78,12 +148,20 @@ def may_raise(repo, fi: FuncInfo, depth: int = 0) -> Set[str]:
             except Exception:
                 callee = None
             if callee is not None and callee.cls is None and hm == fi.module.name:
-                for e in may_raise(repo, callee, depth + 1):
+                for e, sites in raise_sites(repo, callee, depth + 1).items():
                     if not handled(n, e):
-                        out.add(e)
+                        add(n, e, f"{callee.qualname} lets it out", via=sites[0])
         if exc and not handled(n, exc):
-            out.add(exc)
+            add(n, exc, why or "")
     return out
+
+
+def may_raise(repo, fi: FuncInfo, depth: int = 0) -> Set[str]:
+    return set(raise_sites(repo, fi, depth))
+
+
+def _escapes(sites: Dict[str, List[str]]) -> str:
+    return "; ".join(f"{e} from {v[0]}" + (f" and {len(v) - 1} more" if len(v) > 1 else "") for e, v in sorted(sites.items()))
 
 
 def check_fr3d(chk) -> None:
@@ -95,19 +173,22 @@ def check_fr3d(chk) -> None:
     for fi in (pl, pu, uc, pf):
         chk.note_function(fi)
     # totality
-    esc = may_raise(repo, pl)
-    chk.expect(not esc, "fr3d-total", pl.where, "no ValueError/IndexError/KeyError can escape the processing of a line (handlers cover the may-raise set of the line path)", f"{sorted(esc)} can escape _process_interaction_line: a malformed line aborts the whole import", K(pl, "escapes"), found=sorted(esc))
-    inner = may_raise(repo, pu)
-    chk.expect(inner <= {"ValueError", "IndexError"}, "fr3d-total", pu.where, f"parse_unit_id can raise {sorted(inner)}", f"parse_unit_id can raise {sorted(inner)}", K(pu, "may-raise"))
-    esc_u = may_raise(repo, uc)
-    chk.expect(not esc_u, "fr3d-total", uc.where, "label normalisation cannot raise (Enum lookups are under KeyError handlers)", f"{sorted(esc_u)} can escape unify_classification", K(uc, "escapes"), found=sorted(esc_u))
+    sites = raise_sites(repo, pl)
+    esc = set(sites)
+    chk.expect(not esc, "fr3d-total", pl.where, "no ValueError/IndexError/KeyError can escape the processing of a line (handlers cover the may-raise set of the line path)", f"{sorted(esc)} can escape _process_interaction_line - a line aborts the whole import: {_escapes(sites)}", K(pl, "escapes"), found=sorted(esc))
+    sites_u = raise_sites(repo, pu)
+    inner = set(sites_u)
+    chk.expect(inner <= {"ValueError", "IndexError"}, "fr3d-total", pu.where, f"parse_unit_id can raise {sorted(inner)}", f"parse_unit_id can raise {sorted(inner)}: {_escapes({e: v for e, v in sites_u.items() if e not in ('ValueError', 'IndexError')})}", K(pu, "may-raise"))
+    sites_n = raise_sites(repo, uc)
+    esc_u = set(sites_n)
+    chk.expect(not esc_u, "fr3d-total", uc.where, "label normalisation cannot raise: every Enum lookup on a label path is inside a handler that accepts what that lookup raises (KeyError for E[name], ValueError for E(value))", f"{sorted(esc_u)} can escape unify_classification - the line dispatcher takes the label for a malformed line (or the import aborts) instead of keeping it as 'other': {_escapes(sites_n)}", K(uc, "escapes"), found=sorted(esc_u))
     bi = repo.cls("common", "BaseInteractions")
     fields = [norm(b.annotation) for b in bi.body if isinstance(b, ast.AnnAssign)]
     chk.expect(fields == ["List[BasePair]", "List[Stacking]", "List[BaseRibose]", "List[BasePhosphate]", "List[OtherInteraction]"], "result-fields", "src/rnapolis/common.py BaseInteractions", "BaseInteractions fields in the order the adapters rely on", "BaseInteractions field order/types changed", "common:BaseInteractions:fields", found=fields)
     # fact-level rules first (checks/c19e.py): the import evaluated on one listing per class of line; the pinned forms below are only the fallback
     from checks import c19e
 
-    why = c19e.fr3d_facts(chk, label_cases())
+    why = c19e.fr3d_facts(chk, label_cases(chk.tier == "thorough"))
     if why is None:
         return
     chk.ok("fr3d-facts", pf.where, f"fact-level reading not possible ({why[:160]}); falling back to the pinned forms")
@@ -159,7 +240,9 @@ def check_fr3d(chk) -> None:
     chk.expect(ok, "result-fields", pf.where, "the five lists are created under the keys the dispatch writes and passed to BaseInteractions in field order", "interactions_data keys / BaseInteractions argument order do not match (basePairs, stackings, baseRibose, basePhosphate, other)", K(pf, "fields"))
 
 
-def check_normaliser(chk) -> None:
+def check_normaliser(chk, evaluated: bool = False) -> None:
+    """`evaluated`: normaliser-eval could evaluate the function on every label class - then the pinned forms of its steps are not
+    consulted (a lookup by value instead of by name, another slicing idiom ... are decided by what the labels give)."""
     repo = chk.repo
     uc = repo.func(M, "unify_classification")
     p = uc.node.args.args[0].arg
@@ -169,6 +252,9 @@ def check_normaliser(chk) -> None:
             names = [n for n in astq.names(s.value)]
             chk.expect(names == [p], "normaliser-self-update", uc.site(s), f"`{norm(s)}` rewrites the label from itself", f"`{norm(s)}` rebuilds the working label from `{[n for n in names if n != p]}`: an earlier normalisation step is undone", K(uc, f"update:{norm(s)}"))
     chk.floor("normaliser-self-update", 2)
+    if evaluated:
+        chk.ok("normaliser-steps", uc.where, "steps, backbone / stacking / Leontis-Westhof branches and the final fallback are decided by normaliser-eval on the current code (pinned forms not consulted)")
+        return
     ifs = [s for s in uc.node.body if isinstance(s, ast.If)]
     tests = [norm(s.test) for s in ifs]
     want = [
@@ -227,6 +313,10 @@ def check_dssr(chk, evaluated: bool = False) -> None:
         t = [flat(s) for s in mn.node.body]
         ok = t == [flat("if nt_id is not None:\n    nt_id = nt_id.split(':')[-1]\n    for residue in structure3d.residues:\n        if residue.full_name == nt_id:\n            return residue\n    logging.warning(f'Failed to find residue {nt_id}')"), flat("return None")]
         chk.expect(ok, "dssr-name", mn.where, "a DSSR id resolves to the residue whose full name equals the part after the model prefix", "DSSR name matching changed (strip model prefix, exact full_name equality, None otherwise)", K(mn, "match"))
+    if evaluated:  # the loops and the result were evaluated on the documents of dssr-eval: their pinned forms are not consulted
+        chk.ok("dssr-pairs", pd_.where, "which pairs are kept is decided by dssr-eval on the current code (pinned form not consulted)")
+        chk.ok("dssr-stacks", pd_.where, "which stack members are paired is decided by dssr-eval on the current code (pinned form not consulted)")
+        return
     loops = [l for l in pd_.node.body if isinstance(l, ast.For)]
     pl = [l for l in loops if norm(l.iter) == "dssr.get('pairs', [])"]
     ok = len(pl) == 1 and [flat(s) for s in pl[0].body] == [
@@ -245,9 +335,9 @@ def check_dssr(chk, evaluated: bool = False) -> None:
             i = norm(b[1].target)
             ok = [flat(s) for s in b[1].body] == [flat(f"nt1 = nts[{i} - 1]"), flat(f"nt2 = nts[{i}]"), flat("if nt1 is not None and nt2 is not None:\n    stackings.append(Stacking(nt1, nt2, None))")]
     chk.expect(ok, "dssr-stacks", pd_.where, "consecutive members (i-1, i) of a stack are paired when both resolve; an unresolved member breaks the chain", "DSSR stacks are not turned into Stacking(nts[i-1], nts[i]) for consecutive positions with both resolved (unresolved members must not be skipped over)", K(pd_, "stacks"))
-    if not evaluated:  # dssr-eval reads the result itself: BaseInteractions(<pairs>, <stackings>, [], [], [])
-        rets = [r for r in pd_.node.body if isinstance(r, ast.Return)]
-        chk.expect(len(rets) == 1 and norm(rets[0].value) == "BaseInteractions(base_pairs, stackings, [], [], [])", "result-fields", pd_.where, "DSSR result = BaseInteractions(pairs, stackings, [], [], [])", "DSSR result fields changed", K(pd_, "result"))
+    # (with dssr-eval the result is read by the evaluation itself: BaseInteractions(<pairs>, <stackings>, [], [], []))
+    rets = [r for r in pd_.node.body if isinstance(r, ast.Return)]
+    chk.expect(len(rets) == 1 and norm(rets[0].value) == "BaseInteractions(base_pairs, stackings, [], [], [])", "result-fields", pd_.where, "DSSR result = BaseInteractions(pairs, stackings, [], [], [])", "DSSR result fields changed", K(pd_, "result"))
 
 
 def enum_stubs(repo) -> Dict[str, EnumStub]:
@@ -256,21 +346,44 @@ def enum_stubs(repo) -> Dict[str, EnumStub]:
     return {en: enum_stub(repo, "common", en) for en in ("LeontisWesthof", "BR", "BPh", "StackingTopology", "Saenger")}
 
 
-def label_cases() -> Dict[str, Any]:
-    """One label per class of the label language -> (category, class) the statement gives."""
+def label_cases(full: bool = False) -> Dict[str, Any]:
+    """One label per class of the label language -> (category, class) the statement gives.  `full` (tier thorough): in addition the
+    whole product the statement spells out - 18 Leontis-Westhof classes x 8 letter cases, four stacking labels, 0-9BR, 0-9BPh, each
+    bare / with the 'n' prefix / with the 'a' suffix / with both."""
     lw = lambda n: ("base-pair", ("LeontisWesthof", n))
+    cases = _label_samples(lw)
+    if full:
+        import itertools
+
+        core: Dict[str, Any] = {}
+        for ct, e1, e2 in itertools.product("ct", "WHS", "WHS"):
+            for v in itertools.product(*((ch.lower(), ch.upper()) for ch in (ct, e1, e2))):
+                core["".join(v)] = lw(f"{ct}{e1}{e2}")
+        for lab, top in STACK_LABELS.items():
+            core[lab] = ("stacking", ("StackingTopology", top))
+        for d in "0123456789":
+            core[f"{d}BR"] = ("base-ribose", ("BR", f"_{d}"))
+            core[f"{d}BPh"] = ("base-phosphate", ("BPh", f"_{d}"))
+        for lab, want in core.items():
+            for pre, suf in (("", ""), ("n", ""), ("", "a"), ("n", "a")):
+                cases.setdefault(pre + lab + suf, want)
+    return cases
+
+
+def _label_samples(lw) -> Dict[str, Any]:
     return {
         "cWW": lw("cWW"), "tHS": lw("tHS"), "cww": lw("cWW"), "tSs": lw("tSS"), "THs": lw("tHS"), "ncWW": lw("cWW"), "cWWa": lw("cWW"), "ncWWa": lw("cWW"), "ntsh": lw("tSH"), "tWHa": lw("tWH"),
         "s33": ("stacking", ("StackingTopology", STACK_LABELS["s33"])), "s55": ("stacking", ("StackingTopology", STACK_LABELS["s55"])), "s35": ("stacking", ("StackingTopology", STACK_LABELS["s35"])), "s53": ("stacking", ("StackingTopology", STACK_LABELS["s53"])),
         "ns35": ("stacking", ("StackingTopology", STACK_LABELS["s35"])), "s53a": ("stacking", ("StackingTopology", STACK_LABELS["s53"])),
         "0BR": ("base-ribose", ("BR", "_0")), "7BR": ("base-ribose", ("BR", "_7")), "n3BR": ("base-ribose", ("BR", "_3")), "9BR": ("base-ribose", ("BR", "_9")),
         "0BPh": ("base-phosphate", ("BPh", "_0")), "9BPh": ("base-phosphate", ("BPh", "_9")), "n4BPh": ("base-phosphate", ("BPh", "_4")), "6BPha": ("base-phosphate", ("BPh", "_6")),
+        "\u00b2BR": ("other", None), "\u0663BPh": ("other", None),  # str.isdigit() accepts more than 0-9: a digit that names no member is an unrecognised label
         "xyz": ("other", None), "": ("other", None), "cXY": ("other", None), "s36": ("other", None), "perp": ("other", None), "cW": ("other", None), "n": ("other", None), "BPh": ("other", None), "tWWW": ("other", None),
     }
 
 
-def check_normaliser_eval(chk) -> None:
-    """unify_classification evaluated on one label per class of the label language (prefix n / suffix a / digit+BR / digit+BPh / sXY / c|t + two edges
+def check_normaliser_eval(chk) -> bool:
+    """True when the function could be evaluated on every label class.  unify_classification evaluated on one label per class of the label language (prefix n / suffix a / digit+BR / digit+BPh / sXY / c|t + two edges
     in either case / junk): category and class must be the ones the statement gives."""
     from sa.blockeval import BlockEval, Unknown
 
@@ -280,56 +393,136 @@ def check_normaliser_eval(chk) -> None:
     from sa.world import build
 
     world = build(repo, M)  # Enum classes, dataclass constructors and the module's own functions: the same abstract world for the body and for the module-level tables it reads
-    cases = label_cases()
+    cases = label_cases(chk.tier == "thorough")
     bad = {}
+    raised = {}
     try:
         for label, want in cases.items():
             ev = BlockEval(repo, M, {p: label}, world=world)
-            kind, val = ev.run(uc.node.body)
+            try:
+                kind, val = ev.run(uc.node.body)
+            except Unknown:
+                raise
+            except Exception as ex:  # an exception of the evaluated code (Enum lookup, subscript ...), not of the analysis
+                st = ev.trace[-1] if ev.trace else None
+                o = getattr(ex, "_sa_origin", None) or (("unify_classification", getattr(st, "lineno", None), ast.unparse(st).split("\n")[0][:90]) if st is not None else None)
+                raised[label] = f"{type(ex).__name__} ({str(ex)[:60]})" + (f" at line {o[1]} `{o[2]}`" if o else "")
+                continue
             if kind != "return" or val != want:
                 bad[label] = (kind, val)
-        chk.expect(
-            not bad,
-            "normaliser-eval",
-            uc.where,
-            f"{len(cases)} labels, one per class of the label language (n-prefix, a-suffix, case of c/t and edges, digit+BR/BPh, sXY, junk), get the category and class of the statement",
-            "labels are classified wrongly: " + "; ".join(f"`{k}` -> {v[1] if v[0] == 'return' else v[0]} (expected {cases[k]})" for k, v in list(bad.items())[:4]),
-            K(uc, "normaliser-eval"),
-            expected={k: str(cases[k]) for k in list(bad)[:8]},
-            found={k: str(v) for k, v in list(bad.items())[:8]},
-        )
     except Unknown as ex:
         chk.error("normaliser-eval", uc.where, f"unify_classification not evaluable: {ex}")
-    except Exception as ex:
-        chk.violation("normaliser-eval", uc.where, f"unify_classification raises {type(ex).__name__} ({ex}) for one of the label classes: the line (or the whole import) is lost", K(uc, "normaliser-raises"))
+        return False
+    except Exception as ex:  # anything else is a fault of the analysis, never a verdict
+        chk.error("normaliser-eval", uc.where, f"evaluation of unify_classification failed: {type(ex).__name__}: {ex}")
+        return False
+    chk.expect(
+        not bad,
+        "normaliser-eval",
+        uc.where,
+        f"{len(cases)} labels" + (" (one per class of the label language and the whole product 18 classes x 8 letter cases, 4 stacking labels, 0-9BR, 0-9BPh, each bare / n-prefixed / a-suffixed / both)" if len(cases) > 100 else ", one per class of the label language (n-prefix, a-suffix, case of c/t and edges, digit+BR/BPh, sXY, junk),") + " get the category and class of the statement",
+        "labels are classified wrongly: " + "; ".join(f"`{k}` -> {v[1] if v[0] == 'return' else v[0]} (expected {cases[k]})" for k, v in list(bad.items())[:4]),
+        K(uc, "normaliser-eval"),
+        expected={k: str(cases[k]) for k in list(bad)[:8]},
+        found={k: str(v) for k, v in list(bad.items())[:8]},
+    )
+    chk.expect(
+        not raised,
+        "normaliser-eval",
+        uc.where,
+        f"none of the {len(cases)} label classes makes unify_classification raise",
+        "unify_classification raises instead of returning a (category, class): " + "; ".join(f"label `{k}` (statement: {cases[k]}) -> {v}" for k, v in list(raised.items())[:3]) + " - the line is lost (or the whole import)",
+        K(uc, "normaliser-raises"),
+        found=dict(list(raised.items())[:8]),
+    )
+    return True
+
+
+DSSR_KNOWN = {"A1": "rA1", "A2": "rA2", "A3": "rA3", "A4": "rA4", "A5": "rA5"}  # names that resolve in the structure -> residue; Z* do not resolve
+DSSR_DOCS = [
+    # pairs: both residues and the class resolve / one residue does not / unknown class / a residue missing / model prefix / class missing or null
+    {"pairs": [{"nt1": "A1", "nt2": "A2", "LW": "cWW"}, {"nt1": "A1", "nt2": "Z9", "LW": "cWW"}, {"nt1": "A3", "nt2": "A4", "LW": "c.W"}, {"nt2": "A4", "LW": "tHS"}, {"nt1": "1:A5", "nt2": "A4", "LW": "tHS"}, {"nt1": "A2", "nt2": "A3"}, {"nt1": "A2", "nt2": "A3", "LW": None}], "stacks": []},
+    # stacks, by where the member that does not resolve sits: nowhere / in the middle / first / last / two in a row / in the middle of five
+    {"stacks": [{"nts_long": "A1,A2,A3"}]},
+    {"stacks": [{"nts_long": "A1,Z9,A3"}]},
+    {"stacks": [{"nts_long": "Z9,A1,A2"}]},
+    {"stacks": [{"nts_long": "A1,A2,Z9"}]},
+    {"stacks": [{"nts_long": "A1,Z8,Z9,A2"}]},
+    {"stacks": [{"nts_long": "A1,A2,Z9,A4,A5"}, {"nts_long": "A3"}, {}]},
+    # two stacks: the last member of one and the first of the next are not members of one stack
+    {"stacks": [{"nts_long": "A1,A2"}, {"nts_long": "A3,A4"}]},
+    {"pairs": [{"nt1": "A4", "nt2": "A5", "LW": "tSW"}], "stacks": [{"nts_long": "A5,A4"}]},
+    {},
+]
+
+
+def _dssr_resolve(name):
+    return None if name is None else DSSR_KNOWN.get(name.split(":")[-1])
+
+
+def dssr_expected(doc: Dict[str, Any], members) -> Tuple[List[tuple], List[tuple]]:
+    """What the statement gives for a document: the pairs whose two names resolve and whose class is a member; per stack, the
+    members adjacent in the stack's own list that both resolve."""
+    pairs, stacks = [], []
+    for pr in doc.get("pairs", []):
+        a, b, lw = _dssr_resolve(pr.get("nt1")), _dssr_resolve(pr.get("nt2")), pr.get("LW")
+        if a is not None and b is not None and isinstance(lw, str) and lw in members:
+            pairs.append(("BasePair", a, b, ("LeontisWesthof", lw), None))
+    for st in doc.get("stacks", []):
+        names = st.get("nts_long", "").split(",")
+        for x, y in zip(names, names[1:]):
+            a, b = _dssr_resolve(x), _dssr_resolve(y)
+            if a is not None and b is not None:
+                stacks.append(("Stacking", a, b, None))
+    return pairs, stacks
+
+
+def explain_stacking(doc: Dict[str, Any], got: List[tuple], want: List[tuple]) -> str:
+    """Names the members behind the first stacking that is recorded but should not be (or the reverse)."""
+    back = {v: k for k, v in DSSR_KNOWN.items()}
+    lists = [st.get("nts_long", "").split(",") for st in doc.get("stacks", [])]
+    rest = list(want)
+    for g in got:
+        if g in rest:
+            rest.remove(g)
+            continue
+        a, b = (back.get(g[1]), back.get(g[2])) if isinstance(g, tuple) and len(g) >= 3 else (None, None)
+        if a is None or b is None:
+            return f"a stacking {g!r} is recorded that is not between two resolved members"
+        for names in lists:
+            short = [n.split(":")[-1] for n in names]
+            if a in short and b in short:
+                i, j = short.index(a), short.index(b)
+                if abs(i - j) == 1:
+                    return f"members `{a}` and `{b}` of the stack `{','.join(names)}` are recorded " + ("more than once" if i < j else "in reverse order")
+                between = names[min(i, j) + 1 : max(i, j)]
+                gone = [n for n in between if _dssr_resolve(n) is None]
+                return f"members `{a}` and `{b}` of the stack `{','.join(names)}` are recorded as a stacking although they are not adjacent in the stack's list (between them: {', '.join('`' + n + '`' for n in between)}" + (f"; {', '.join(gone)} do{'es' if len(gone) == 1 else ''} not resolve in the structure and must break the chain, not be skipped over)" if gone else ")")
+        return f"`{a}` and `{b}` are recorded as a stacking although they are members of different stacks ({' | '.join(','.join(n) for n in lists)})"
+    if rest:
+        m = rest[0]
+        return f"no stacking is recorded for `{back.get(m[1])}` and `{back.get(m[2])}`, adjacent in their stack's list and both resolved"
+    return "the stackings are recorded in another order than the stacks list them"
 
 
 def check_dssr_eval(chk) -> bool:
-    """True when the fragment could be evaluated.  The pair and stack loops of parse_dssr_output evaluated on documents covering the cases resolved / unresolved member, known / unknown class."""
+    """True when the fragment could be evaluated.  The pair and stack loops of parse_dssr_output evaluated (in one process model,
+    sa/procstate.py) on documents covering: resolved / unresolved residue, known / unknown / missing class; per stack the position of
+    an unresolved member; several stacks.  What is expected is computed from the document by the statement's words (dssr_expected)."""
     from sa.blockeval import BlockEval, Unknown
+    from sa.procstate import Process, render
 
     repo = chk.repo
     pd_ = repo.func(M, "parse_dssr_output")
     stubs = enum_stubs(repo)
-    known = {"A1": "rA1", "A2": "rA2", "A3": "rA3", "A4": "rA4", "A5": "rA5"}
+    members = stubs["LeontisWesthof"].__members__
 
     def resolve(structure, name):
-        if name is None:
-            return None
-        return known.get(name.split(":")[-1])
+        return _dssr_resolve(name)
 
     def match_lw(x):
-        return ("LeontisWesthof", x) if x in stubs["LeontisWesthof"].__members__ else None
+        return ("LeontisWesthof", x) if isinstance(x, str) and x in members else None
 
-    env0 = dict(stubs, structure3d="S", match_dssr_name_to_residue=resolve, match_dssr_lw=match_lw, BasePair=lambda *a: ("BasePair",) + a, Stacking=lambda *a: ("Stacking",) + a, BaseInteractions=lambda *a: ("BaseInteractions",) + a)
-    docs = [
-        ({"pairs": [{"nt1": "A1", "nt2": "A2", "LW": "cWW"}, {"nt1": "A1", "nt2": "Z9", "LW": "cWW"}, {"nt1": "A3", "nt2": "A4", "LW": "c.W"}, {"nt2": "A4", "LW": "tHS"}, {"nt1": "1:A5", "nt2": "A4", "LW": "tHS"}], "stacks": []},
-         [("BasePair", "rA1", "rA2", ("LeontisWesthof", "cWW"), None), ("BasePair", "rA5", "rA4", ("LeontisWesthof", "tHS"), None)], []),
-        ({"stacks": [{"nts_long": "A1,A2,A3"}]}, [], [("Stacking", "rA1", "rA2", None), ("Stacking", "rA2", "rA3", None)]),
-        ({"stacks": [{"nts_long": "A1,Z9,A3"}]}, [], []),
-        ({"stacks": [{"nts_long": "A1,A2,Z9,A4,A5"}, {"nts_long": "A3"}, {}]}, [], [("Stacking", "rA1", "rA2", None), ("Stacking", "rA4", "rA5", None)]),
-        ({}, [], []),
-    ]
     loops = [l for l in pd_.node.body if isinstance(l, ast.For)]
     first = pd_.node.body.index(loops[0]) if loops else None
     if first is None:
@@ -344,64 +537,112 @@ def check_dssr_eval(chk) -> bool:
     if docname is None:
         chk.error("dssr-eval", pd_.where, "name of the parsed document not found")
         return False
-    bad = []
+    params = [a.arg for a in pd_.node.args.args]
+    bad: List[Tuple[Any, str]] = []
+    hist: List[str] = []
     try:
-        for doc, want_pairs, want_stacks in docs:
-            ev = BlockEval(repo, M, {docname: doc}, world=env0)
-            kind, val = ev.run(inits + pd_.node.body[first:])
+        import json
+
+        from sa.world import Obj, opener
+
+        files: Dict[str, str] = {}
+        proc = Process(repo, M, extra=dict(stubs, match_dssr_name_to_residue=resolve, match_dssr_lw=match_lw, BasePair=lambda *a: ("BasePair",) + a, Stacking=lambda *a: ("Stacking",) + a, BaseInteractions=lambda *a: ("BaseInteractions",) + a, open=opener(files), orjson=Obj("<orjson>", loads=json.loads)))
+        block = inits + pd_.node.body[first:]
+        whole = [True]  # the whole function (reading the file through the stubs for open / orjson.loads) as long as that is evaluable, else the loops only
+
+        def evaluate(doc, fresh: bool = True):
+            if fresh:
+                proc.restart()
+            if whole[0]:
+                files["dssr.json"] = json.dumps(doc)
+                try:
+                    return "return", proc.world["parse_dssr_output"]("dssr.json", "S")
+                except Unknown:
+                    whole[0] = False
+                    if fresh:
+                        proc.restart()
+            env = {p: v for p, v in zip(params[1:], ("S", None))}
+            env[docname] = doc
+            return BlockEval(repo, M, env, world=proc.world).run(block)
+
+        alone = []
+        for doc in DSSR_DOCS:
+            want_pairs, want_stacks = dssr_expected(doc, members)
+            kind, val = evaluate(doc)
+            alone.append(render((kind, val)))
             if kind != "return" or not (isinstance(val, tuple) and val[:1] == ("BaseInteractions",) and len(val) == 6):
                 bad.append((doc, f"result {kind}: {val!r}"[:120]))
                 continue
             if list(val[1]) != want_pairs:
                 bad.append((doc, f"pairs {list(val[1])!r}, expected {want_pairs!r}"))
             if list(val[2]) != want_stacks:
-                bad.append((doc, f"stackings {list(val[2])!r}, expected {want_stacks!r}"))
+                bad.append((doc, f"{explain_stacking(doc, list(val[2]), want_stacks)}: stackings {list(val[2])!r}, expected {want_stacks!r}"))
             if list(val[3]) or list(val[4]) or list(val[5]):
                 bad.append((doc, "other lists are not empty"))
-        chk.expect(
-            not bad,
-            "dssr-eval",
-            pd_.where,
-            f"{len(docs)} documents: a pair is kept iff both residues and the class resolve; consecutive members of a stack are paired iff both resolve (an unresolved member breaks the chain, it is not skipped over)",
-            "DSSR import differs from the statement: " + "; ".join(f"{str(d)[:70]} gives {m}" for d, m in bad[:2]),
-            K(pd_, "dssr-eval"),
-            found=[m for d, m in bad[:4]],
-        )
+        # one process, the documents one after the other: each gives what it gives alone
+        proc.restart()
+        fresh_state = proc.snapshot()
+        for k, doc in enumerate(DSSR_DOCS):
+            got = render(evaluate(doc, fresh=False))
+            if got != alone[k] and not hist:
+                left = {n: v for n, v in proc.snapshot().items() if fresh_state.get(n) != v}
+                hist.append(f"document {k + 1} ({str(doc)[:60]}) imported after {k} other document(s) in the same process gives {str(got)[:140]}, in a process of its own {str(alone[k])[:140]}" + (f"; state left behind in {sorted(left)[0]}" if left else ""))
     except Unknown as ex:
         chk.error("dssr-eval", pd_.where, f"parse_dssr_output loops not evaluable: {ex}")
         return False
     except Exception as ex:
         chk.violation("dssr-eval", pd_.where, f"parse_dssr_output raises {type(ex).__name__} ({ex}) on one of the documents", K(pd_, "dssr-raises"))
+        return True
+    chk.expect(
+        not bad,
+        "dssr-eval",
+        pd_.where,
+        f"{len(DSSR_DOCS)} documents: a pair is kept iff both residues and the class resolve; a stacking is recorded exactly for the members adjacent in a stack's own list that both resolve (an unresolved member breaks the chain, it is not skipped over; stacks are not joined)",
+        "DSSR import differs from the statement: " + "; ".join(f"{str(d)[:70]}: {m}" for d, m in bad[:2]),
+        K(pd_, "dssr-eval"),
+        found=[m for d, m in bad[:4]],
+    )
+    chk.expect(not hist, "import-history", pd_.where, f"{len(DSSR_DOCS)} DSSR documents imported one after the other in one process: each gives what it gives in a process of its own", "; ".join(hist[:1]), K(pd_, "dssr-history"), found=hist[:2])
     return True
 
 
 def run(chk) -> None:
     chk.explanation = (
-        "Static rules on adapter.py. For all inputs: a small may-raise analysis (int()/float() of strings, constant subscripts of split() results without an exact length guard, Enum subscripts, "
-        "explicit raises, callees of the same module) minus enclosing handlers shows nothing escapes the per-line path. Per class of input (fragment evaluation, DESIGN 1.2 item 4, in the abstract "
-        "world of sa/world.py: Enum classes, dataclass constructors, the module's own functions as inlined ast, module-level tables folded in the same world): parse_unit_id on unit ids of every field "
-        "count; parse_fr3d_output on one listing per category the evaluated normaliser returns (exactly one object of the class of the category, between the residues of column 1 and 3, in the "
-        "BaseInteractions field of that element type), on comment / blank / malformed lines (skipped, nothing raised, later lines kept) and on several lines (file order); unify_classification on one "
-        "label per class of the label language; match_dssr_lw on every member name and on non-members; match_dssr_name_to_residue on exact / model-prefixed / prefix / unknown / missing ids; the pair and "
-        "stack loops of parse_dssr_output on five documents. The pinned forms of these constructs are consulted only where the evaluation is not possible."
+        "Static rules on adapter.py. For all inputs: a small may-raise analysis (int()/float() of strings, constant subscripts of split() results without an exact length guard, Enum subscripts "
+        "(KeyError) and Enum calls by value (ValueError) unless dominated by a membership test, explicit raises, callees of the same module) minus enclosing handlers shows nothing escapes the "
+        "per-line path and nothing a label path raises is left to the handler for malformed lines; each site is reported with its construct, reason and enclosing handlers. Per class of input "
+        "(fragment evaluation, DESIGN 1.2 item 4, in the abstract world of sa/world.py: Enum classes, dataclass constructors, the module's own functions as inlined ast; in the process model of "
+        "sa/procstate.py: module-level objects and default arguments are created once per process and live on between calls): parse_unit_id on unit ids of every field count and on ids that "
+        "differ in a single field; parse_fr3d_output on one listing per category the evaluated normaliser returns (exactly one object of the class of the category, between the residues of "
+        "column 1 and 3, in the BaseInteractions field of that element type), on one line per class of label (exactly one interaction each: no label path raises into the malformed-line handler), "
+        "on comment / blank / malformed lines (skipped, nothing raised, later lines kept), on several lines (file order) and on histories of two imports in one process (the second gives what it "
+        "gives alone, the first result is not rewritten); unify_classification on one label per class of the label language (tier thorough: the whole product 18 classes x 8 letter cases, 4 "
+        "stacking labels, 0-9BR, 0-9BPh, each bare / n-prefixed / a-suffixed / both); match_dssr_lw on every member name and on non-members; match_dssr_name_to_residue on exact / model-prefixed "
+        "/ prefix / unknown / missing ids; parse_dssr_output (file and orjson.loads as stubs) on ten documents - what is expected is computed from each document by the words of the statement "
+        "(pairs whose names and class resolve; members adjacent in a stack's own list that both resolve) - alone and one after the other in one process. The pinned forms of these constructs "
+        "are consulted only where the evaluation is not possible."
     )
     chk.trusted = ["CPython ast", "orjson.loads / file I/O errors are outside the statement", "stacking label table as coded (what FR3D's four labels denote is not decided)"]
-    chk.assumptions = ["the label language as a set of strings is not enumerated (that would be execution); only the structure of the normaliser is decided"]
+    chk.assumptions = [
+        "labels outside the enumerated classes (longer junk, other alphabets) are represented by the junk samples; only the structure of the normaliser is decided for them",
+        "call histories: state carried by module-level objects and default arguments is modelled; rebinding through `global`, attributes set on functions/classes and caches of decorators are not (the evaluation stops with 'not evaluable')",
+        "a mutable class attribute (a list or dict in a class body) is folded anew at every reference: history carried through one is not visible to rule `import-history` (residual)",
+    ]
     # evidence rules; unit-id, line-fields, dispatch-*, result-fields, fr3d-lines, dssr-name, guard-exact are evidence rules too whenever
     # their fact-level reading (checks/c19e.py) is possible, and form rules in the fallback
-    chk.robust |= {"fr3d-total", "normaliser-eval", "dssr-eval", "normaliser-self-update"}
+    chk.robust |= {"fr3d-total", "normaliser-eval", "dssr-eval", "normaliser-self-update", "import-history", "label-total"}
     chk.superseded.update({"normaliser-steps": "normaliser-eval", "normaliser-backbone": "normaliser-eval", "normaliser-stacking": "normaliser-eval", "normaliser-lw": "normaliser-eval", "dssr-pairs": "dssr-eval", "dssr-stacks": "dssr-eval"})
     check_fr3d(chk)
-    check_normaliser(chk)
-    check_normaliser_eval(chk)
+    check_normaliser(chk, check_normaliser_eval(chk))
     check_dssr(chk, check_dssr_eval(chk))
     for rule, n in (("fr3d-total", 4), ("dispatch-branch", 5), ("dispatch-exhaustive", 1), ("guard-exact", 1), ("dssr-stacks", 1)):
         chk.floor(rule, n)
 
 
 MANIFEST_ENTRY = {
-    "text": "Static decision on the current source of adapter.py: totality (the may-raise set of the per-line path is covered by its handlers for every file content), faithful field positions, exhaustive dispatch with one object of the matching "
-    "class per branch, normaliser steps that update the string they test, exact Enum-membership guard for DSSR classes, pair and consecutive-stack rules. 'Never raises' and 'nothing dropped' are for-all-inputs claims decided on all paths.",
+    "text": "Static decision on the current source of adapter.py: totality (the may-raise set of the per-line path is covered by its handlers for every file content; no label path raises into the malformed-line handler), faithful field positions, "
+    "exhaustive dispatch with one object of the matching class per category and per class of label, normaliser steps that update the string they test, exact Enum-membership guard for DSSR classes, pairs and stack members adjacent in the stack's own "
+    "list, independence of an import from the imports made before it in the same process. 'Never raises' is a for-all-inputs claim decided on all paths; the faithful-import clauses are decided by evaluating the code's ast on one representative per class of input.",
     "note": "Trusted: orjson and file I/O. Not decided: the label language as a set of strings (enumeration is execution) and what FR3D's four stacking labels denote.",
     "technique": "static analysis: may-raise/handler coverage, exhaustiveness of dispatch vs returned literals, argument/field agreement, guard exactness",
 }
